@@ -484,9 +484,46 @@ func (e *env) runFaults(cc *caseCtx, o *outcome, fs []fault) {
 		case isNumKind(h.kind):
 			return !isMulti(h.req)
 		case isCountKind(h.kind):
-			return !(isMulti(h.req) && singleOriginEntry(h.req))
+			// a single-origin entry of a merged request takes an empty list as "no entity" (one extra is noticed)
+			return !(h.kind == e2e.KEntMissing && isMulti(h.req) && singleOriginEntry(h.req))
 		}
 		return true
+	}
+	// nullSent: a representation carries null where the fault-free request of the same entity carries a value
+	nullSent := func() bool {
+		for _, r := range res.Requests {
+			if r.Variables == nil {
+				continue
+			}
+			for _, m := range r.Variables.Members {
+				if !strings.HasPrefix(m.Key, "representations") || m.Val.Kind != fedlab.JArr {
+					continue
+				}
+				for _, rep := range m.Val.Items {
+					if rep.Kind != fedlab.JObj {
+						continue
+					}
+					for _, f := range rep.Members {
+						if f.Val.Kind != fedlab.JNull {
+							continue
+						}
+						for _, r0 := range cc.base.Requests {
+							if r0.Ident() != r.Ident() || r0.Variables == nil {
+								continue
+							}
+							if rv := r0.Variables.Get(m.Key); rv != nil {
+								for _, rep0 := range rv.Items {
+									if rep0.Kind == fedlab.JObj && rep0.Get("id").Equal(rep.Get("id")) && rep0.Get(f.Key) != nil && rep0.Get(f.Key).Kind != fedlab.JNull {
+										return true
+									}
+								}
+							}
+						}
+					}
+				}
+			}
+		}
+		return false
 	}
 	// known root causes present in this run (tools/props/c07e.py matches KNOWN_FINDINGS keys on them)
 	causes := func() []string {
@@ -498,9 +535,21 @@ func (e *env) runFaults(cc *caseCtx, o *outcome, fs []fault) {
 			case isNumKind(h.kind) && isMulti(h.req):
 				// loader_multi_entity.go parses the shared body of a merged request itself
 				cs = append(cs, "multifetch-nan-accepted")
-			case isCountKind(h.kind) && isMulti(h.req) && singleOriginEntry(h.req):
+			case h.kind == e2e.KEntMissing && isMulti(h.req) && singleOriginEntry(h.req):
 				cs = append(cs, "multifetch-single-origin-count-ignored")
 			}
+		}
+		// a merged request that failed otherwise than by a transport error is not recorded in erroredFetchIDs (its
+		// entries are merged one by one with items that carry no Fetch), so a dependant is still sent, with null for
+		// a nullable @requires input the failed request was to deliver
+		failedMulti := false
+		for _, h := range hits {
+			if fetchFails(h) && h.kind != e2e.KTransport && isMulti(h.req) {
+				failedMulti = true
+			}
+		}
+		if failedMulti && nullSent() {
+			cs = append(cs, "multifetch-nullable-requires-null-sent")
 		}
 		// MultiFetch: dependencies and "errored" are kept per MERGED fetch: a merged fetch is skipped as a whole
 		// when one of its union dependencies failed, and one failing entry marks the whole merged fetch as
